@@ -95,6 +95,12 @@ class CallMixin:
                 if tn.startswith('*') and z3.is_expr(recv.val): st.assume(And(recv.val >= 0, recv.val <= st.alloc))   # a boxed pointer is a pointer
                 rv = recv.box if recv.box is not None and not z3.is_expr(recv.box) else recv.val
                 return self.call_named(fr, st, ins, site, fn, [rv] + list(args), None, cont, spawn)
+        if not z3.is_int_value(tagc) and 'netpoll' in ins['iface']:
+            # the path condition may pin the dynamic type (e.g. after typeis(v, *connection) in the contract): dispatch statically then
+            for t in [t for t in self.p.methods if 'netpoll' in t and t.startswith('*') and self.p.implements(t, ins['iface']) and self.p.method(t, m)]:
+                if self.feasible(st, recv.tag == self.p.typeid(t)) and not self.feasible(st, recv.tag != self.p.typeid(t)):
+                    if z3.is_expr(recv.val): st.assume(And(recv.val >= 0, recv.val <= st.alloc))
+                    return self.call_named(fr, st, ins, site, self.p.method(t, m), [recv.val] + list(args), None, cont, spawn)
         c = self.iface_contract(ins['iface'], m)
         if c is None:
             # unexported package interface: only package types can be stored in it (closed world) -> dispatch per type
